@@ -14,7 +14,7 @@ mkdir -p /verif/.build_mut
 cd /verif
 for cid in "$@"; do
   out=$(VERIF_REPO=$wt VERIF_BUILD=/verif/.build_mut VERIF_EVIDENCE=/verif/.build_mut/evidence VERIF_SEED=${VERIF_SEED:-7} ./check $cid --tier ${TIER:-quick} 2>/dev/null); rc=$?
-  echo "== $id vs $cid: rc=$rc"; echo "$out" | grep '^VIOLATION' | cut -c1-260 | head -4
+  echo "== $id vs $cid: rc=$rc"; echo "$out" | grep -a '^VIOLATION' | cut -c1-260 | head -4
 done
 git -C /repo worktree remove --force $wt
 # the translator may have regenerated Generated.lean from the mutant: regenerate from /repo
